@@ -1,4 +1,9 @@
 import Abyss.Props.C12
+import Abyss.Props.GenCorollaries
+import Abyss.Props.C01Budget
+#print axioms Abyss.C01_generated_budget
+#print axioms Abyss.C05_generated_structure
+#print axioms Abyss.parse_image
 #print axioms Abyss.C12_signatures
 #print axioms Abyss.C12_header_layout
 #print axioms Abyss.C12_size_classes
